@@ -49,10 +49,11 @@ import common as C
 from gen import reports as R
 
 PROPERTY = "C10"
-LEAN_MODULES = ["LccModel.Props.C10", "LccModel.Props.C10Info", "LccModel.Props.C10Overlap"]
-PROPS_FILES = ["LccModel/Props/C10.lean", "LccModel/Props/C10Info.lean", "LccModel/Props/C10Overlap.lean"]
+LEAN_MODULES = ["LccModel.Props.C10", "LccModel.Props.C10Info", "LccModel.Props.C10Overlap", "LccModel.Props.C10RunDir"]
+PROPS_FILES = ["LccModel/Props/C10.lean", "LccModel/Props/C10Info.lean", "LccModel/Props/C10Overlap.lean",
+               "LccModel/Props/C10RunDir.lean"]
 NAMESPACES = {"LccModel/Props/C10.lean": "LccModel.C10", "LccModel/Props/C10Info.lean": "LccModel.C10",
-              "LccModel/Props/C10Overlap.lean": "LccModel.C10"}
+              "LccModel/Props/C10Overlap.lean": "LccModel.C10", "LccModel/Props/C10RunDir.lean": "LccModel.C10"}
 DRIVER = "drivers/C10.lean"
 TABLE_OPENS = ("LccModel.Saving", "LccModel.Report")
 TRUSTED_BASE = [
@@ -301,7 +302,7 @@ def tables(ctx):
     finally:
         SS.time = saved
     t3 = C.Table("intervalTable", "List ((Nat × Nat × Nat) × Bool)", rows, imports)
-    return [t1, t2, t3, save_option_table()]
+    return [t1, t2, t3, save_option_table(), report_dir_table()]
 
 
 OPTION_VALUES = [None, "", "at_end_of_tests", "at_each_suite", "at_each_test", "at_each_failed_test", "at_each_log", "at_each_event",
@@ -347,6 +348,87 @@ def real_chosen_strategy(cli, env):
         os.environ.pop("LCC_SAVE_REPORT", None)
         if saved is not None:
             os.environ["LCC_SAVE_REPORT"] = saved
+
+
+PATH_STATES = ["missing", "parentMissing", "emptyDir", "filledDir", "file"]
+
+
+def report_dir_table():
+    """T5: what the real `create_report_dir(cli_args, project)` gives back for every combination of `--report-dir` and
+    `$LCC_REPORT_DIR` ∈ {absent, empty string, a path where nothing is / whose parent is missing / an empty directory / a directory
+    holding a report / a regular file} — by executing it (real argparse definitions) in a scratch directory.  `created`: a string,
+    the path given by that source, a directory that did not exist before; `noDir`: anything that is not a path (on the unchanged
+    tree: the exception object, observation O1) or an exception; `project`: the project's `create_report_dir()` was called."""
+    import shutil
+    import tempfile
+    from lemoncheesecake.cli.commands.run import create_report_dir
+    from props._cli import real_parser
+    values = [None, ""] + PATH_STATES
+
+    def lean_given(v):
+        return "none" if v is None else "(some none)" if v == "" else "(some (some RunStart.PathState.%s))" % v
+
+    class _Proj:
+        def __init__(self):
+            self.called = 0
+
+        def create_report_dir(self):
+            self.called += 1
+            return "<project>"
+    rows = []
+    saved = os.environ.pop("LCC_REPORT_DIR", None)
+    try:
+        for cli in values:
+            for env in values:
+                top = tempfile.mkdtemp(prefix="lccverif-c10dir-")
+                try:
+                    paths = {}
+                    for src, v in (("cli", cli), ("env", env)):
+                        if v in (None, ""):
+                            paths[src] = v
+                            continue
+                        path = os.path.join(top, src, "x", "out") if v == "parentMissing" else os.path.join(top, src + "-out")
+                        if v in ("emptyDir", "filledDir"):
+                            os.makedirs(path)
+                        if v == "filledDir":
+                            with open(os.path.join(path, "report.js"), "w") as fh:
+                                fh.write("var reporting_data = {};\n")
+                        if v == "file":
+                            with open(path, "w") as fh:
+                                fh.write("x\n")
+                        paths[src] = path
+                    existed = {src: (p not in (None, "") and os.path.exists(p)) for src, p in paths.items()}
+                    argv = [] if cli is None else ["--report-dir", paths["cli"]]
+                    os.environ.pop("LCC_REPORT_DIR", None)
+                    if env is not None:
+                        os.environ["LCC_REPORT_DIR"] = paths["env"]
+                    proj = _Proj()
+                    try:
+                        got = create_report_dir(real_parser().parse_args(argv), proj)
+                    except Exception as e:
+                        got = e
+                    if proj.called:
+                        out = "(RunStart.DirOutcome.project, RunSeq.Source.project)" if got == "<project>" else "UNEXPECTED_PROJECT_RESULT"
+                    else:
+                        src = next((k for k in ("cli", "env") if isinstance(got, str) and got == paths[k]), None)
+                        if src is not None:
+                            fresh = os.path.isdir(got) and not existed[src] and not os.listdir(got)
+                            out = "(RunStart.DirOutcome.created, RunSeq.Source.%s)" % src if fresh else \
+                                "(RunStart.DirOutcome.REUSED_EXISTING_PATH, RunSeq.Source.%s)" % src
+                        else:
+                            # no path: which source was it about ? the first truthy one
+                            src = "cli" if paths["cli"] else "env"
+                            out = "(RunStart.DirOutcome.noDir, RunSeq.Source.%s)" % src
+                    rows.append(("(%s, %s)" % (lean_given(cli), lean_given(env)), out,
+                                 "--report-dir %r with $LCC_REPORT_DIR=%r -> %s" % (cli, env, out)))
+                finally:
+                    shutil.rmtree(top, ignore_errors=True)
+    finally:
+        os.environ.pop("LCC_REPORT_DIR", None)
+        if saved is not None:
+            os.environ["LCC_REPORT_DIR"] = saved
+    return C.Table("reportDirTable", "List ((RunStart.Given × RunStart.Given) × (RunStart.DirOutcome × RunSeq.Source))", rows,
+                   ("LccModel.Model.Saving", "LccModel.Model.RunStart"))
 
 
 def save_option_table():
